@@ -174,6 +174,15 @@ func verifRunCase(c *verifCase) (out []string) {
 	out = append(out, "VERIF-BEGIN "+c.ID)
 	f, ok := verifHarnesses[c.Harness]
 	if !ok {
+		// "<registered name>-<variant>": variants differ only in their parameters
+		for i := 0; i < len(c.Harness); i++ {
+			if c.Harness[i] == '-' {
+				f, ok = verifHarnesses[c.Harness[:i]]
+				break
+			}
+		}
+	}
+	if !ok {
 		out = append(out, "VERIF-NOHARNESS "+c.Harness)
 		return out
 	}
